@@ -76,7 +76,7 @@ def gen_chunks(rng: random.Random, shape, style=None):
             parts = []
             left = s
             while left > 0:
-                c = min(left, rng.randint(2, max(3, s // 2)))
+                c = min(left, rng.randint(max(2, s // 8), max(3, s // 2)))
                 parts.append(c)
                 left -= c
             out.append(tuple(parts))
